@@ -128,6 +128,10 @@ def gen(rng):
     for d in text:
         if d["kind"] == "code" and d["insns"][-1][0] in ("jmp", "call") and rng.random() < 0.2:
             d["insns"][-1] = ["icallm" if d["insns"][-1][0] == "call" else "ijmpm", rng.choice(names), 0]
+    # `loop A`: a conditional branch that the disassembler's instruction groups do not list among the jumps
+    for d in text:
+        if d["kind"] == "code" and d["insns"][-1][0] == "jcc" and rng.random() < 0.25:
+            d["insns"][-1] = ["loop", d["insns"][-1][1]]
     fwd = []
     for _ in range(rng.randint(0, 2)):
         a, b = rng.choice(names), rng.choice(names)
@@ -150,7 +154,7 @@ def gen(rng):
     elif k < 0.10:
         special = "no-referent"
     # GOT-style transfers: the edge of a call/jump is labelled indirect although it leads to the symbol's block
-    indirect = [i for i, d in enumerate(text) if d["kind"] == "code" and d["insns"][-1][0] in ("jmp", "jcc", "call") and rng.random() < 0.15]
+    indirect = [i for i, d in enumerate(text) if d["kind"] == "code" and d["insns"][-1][0] in ("jmp", "jcc", "loop", "call") and rng.random() < 0.15]
     return {"case": case, "forwarding": fwd, "req": req, "special": special, "indirect": indirect,
             "odd_attrs": rng.randrange(1 << 30) if rng.random() < 0.3 else None}
 
